@@ -24,6 +24,7 @@ RULE = (
     'accepts (pseudo-element inside :not(), functional pseudo-elements) appended to bases of known specificity, exhaustively: if '
     'accepted, the specificity formula must hold and survive a round trip. Non-trivial (spec): >=2 compounds and a negation, attribute or functional pseudo; (list): an append of '
     'a selector already present or a rejected assignment; distinct by canonical selector / history.'
+    ' Invalid members also: a function inside the argument of a functional pseudo, white space or a comment of an undeclared prefix inside a qualified name.'
 )
 ASSUMPTIONS = [
     'specificity is the formula of the statement: pseudo-classes and the universal selector count nothing',
